@@ -588,6 +588,7 @@ class SymExec:
             key = "len(" + pl + ")"
             if key not in path.env:
                 path.env[key] = self.fresh(key, "usize")
+                path.cond.append(z3.ULE(path.env[key], z3.BitVecVal((1 << 63) - 1, 64)))
             return path.env[key]
         m = re.match(r"discriminant\((.*)\)$", rhs)
         if m:
@@ -715,6 +716,21 @@ class SymExec:
 
     def builtin_model(self, path, t, args):
         """std integer helpers with exact bit-vector semantics."""
+        m = re.match(r"(String|Vec::<.*>|core::str::<impl str>|core::slice::<impl \[.*\]>)::len$", t["func"])
+        if m and len(t["args"]) == 1:
+            # pure: the same receiver yields the same length on one path
+            a = re.sub(r"^(move|copy) ", "", t["args"][0]).strip()
+            tgt = path.env.get("&" + a, a)
+            key = "len(" + str(tgt) + ")"
+            if key not in path.env:
+                path.env[key] = self.fresh(key, "usize")
+                path.cond.append(z3.ULE(path.env[key], z3.BitVecVal((1 << 63) - 1, 64)))   # allocations are <= isize::MAX
+            return path.env[key]
+        m = re.match(r"(?:core::)?char::methods::<impl char>::len_utf(8|16)$", t["func"])
+        if m:
+            v = self.fresh("len_utf" + m.group(1), "usize")
+            path.cond.append(z3.And(z3.UGE(v, z3.BitVecVal(1, 64)), z3.ULE(v, z3.BitVecVal(2 if m.group(1) == "16" else 4, 64))))
+            return v
         m = re.match(r"<(Result|Option)<(.*)> as Try>::branch$", t["func"])
         if m and t["dest"] and len(t["args"]) == 1:
             src = self.place_of(re.sub(r"^(move|copy) ", "", t["args"][0]))[0]
@@ -866,6 +882,8 @@ class MirJob:
             for i, o in enumerate(bad):
                 nt = o.get("native")
                 if not nt:
+                    if o.get("needs_native"):
+                        res["replay_mismatch"] = "over-approximate alarm %s has no native replay: not reported as a violation" % o["id"]
                     continue
                 rep = native_cargo_test(ctx["src"], ctx["scratch"], nt["files"], nt["test"], ctx["logdir"], "%s_%d" % (self.name, i))
                 o["native_replay"] = rep
